@@ -184,6 +184,7 @@ def _inline_site(F, bi, k, G, form):
         ren[n] = nn
         fnames.add(nn)
 
+    threaded = None
     follow = B["ev"][k + 1] if k + 1 < len(B["ev"]) else None
     # `x = g(..)` / `T x = g(..)` where g returns one of its own locals v on every non-constant
     # return: g's v becomes the caller's x (x is overwritten by the call anyway, and the
@@ -204,18 +205,25 @@ def _inline_site(F, bi, k, G, form):
                 for ge in gb["ev"]:
                     if ge.get("e") == "ret" and ge.get("x") is not None:
                         x = strip_casts(ge["x"])
-                        if isinstance(x, dict) and x.get("k") == "var" and x.get("kind") == "local":
+                        if isinstance(x, dict) and x.get("k") == "var" and x.get("kind") in ("local", "param"):
                             rv.add(x["n"])
                         elif not (isinstance(x, dict) and x.get("k") == "int"):
                             plain = False
             gaddr = _addr_taken(G)
             if plain and len(rv) == 1:
                 v = next(iter(rv))
-                uses_tgt_in_args = any(n.get("k") == "var" and n.get("n") == tgt for a in call.get("a", []) for n in walk(a))
-                if v not in gaddr or True:
-                    if not uses_tgt_in_args or True:
-                        fnames.discard(ren[v])
-                        ren[v] = tgt
+                pnames = [p["n"] for p in G["params"]]
+                if v in pnames:
+                    # a status threaded through the helper (`x = g(.., x)` with g returning that parameter): the
+                    # parameter is the caller's variable
+                    a = strip_casts(call.get("a", [])[pnames.index(v)]) if pnames.index(v) < len(call.get("a", [])) else None
+                    if not (isinstance(a, dict) and a.get("k") == "var" and a.get("n") == tgt):
+                        v = None
+                    else:
+                        threaded = v
+                if v is not None:
+                    fnames.discard(ren[v])
+                    ren[v] = tgt
     rest_from = k + 1
     ret_mode = ("drop", None)
     if form == "assign":
@@ -295,6 +303,8 @@ def _inline_site(F, bi, k, G, form):
     cont.pop("label", None)
     binds = []
     for p, a in zip(G["params"], call.get("a", [])):
+        if threaded is not None and p["n"] == threaded:
+            continue
         binds.append({"e": "decl", "l": call["l"], "n": ren[p["n"]], "t": p["t"], "init": copy.deepcopy(a), "inlined_param": True})
     B["ev"] = B["ev"][:k] + binds
     B["succ"] = [idmap[G["entry"]]]
